@@ -97,6 +97,13 @@ def run_shard(shard, ctx):
                         for split in (None, 1, n - 1) if n > 2 else (None, 1):
                             if split is not None and shp != shapes[0] and split != 1: continue
                             Yd = Y.astype(ddt).reshape((n,) + shp)
+                            # memory layout is not part of the value of an array: Fortran-ordered and strided batches must give the same result
+                            lay = ((ax_i + n + len(ddt)) % 2 + 1 if split is None else 0) if len(shp) > 1 else 0       # layouts apply to whole batches (a slice of a Fortran array is neither C nor F contiguous)
+                            if lay == 1:
+                                Yd = np.asfortranarray(Yd)
+                            elif lay == 2:
+                                big = np.zeros((n,) + tuple(2 * d for d in shp), dtype=ddt); Yd_c = Yd
+                                Yd = big[(slice(None),) + tuple(slice(0, None, 2) for _ in shp)]; Yd[...] = Yd_c
                             d = mk(precision=prec)
                             try:
                                 if split is None:
